@@ -24,11 +24,16 @@ def c16(ctx: Ctx):
         # D: the default naming scheme as a function; its non-injectivity (open finding F-C16-1) must keep showing
         ctx.tlc("Internalize", "MC_C16_names.cfg", expect_violation=True, workers=2,
                 label="D DefaultRefNameResolver model: NamesInjective counterexample (F-C16-1)")
+        # D: names of references that point below a component / into a component of another collection: injective as built,
+        # not injective for the two design variants "cut any collection" and "keep the last pointer token of a back reference"
+        ctx.tlc("Internalize", "MC_C16_deep_asbuilt.cfg", workers=2, label="D naming of deep references as built: injective")
+        ctx.tlc("Internalize", "MC_C16_deep_cutany.cfg", expect_violation=True, workers=2, label="D naming variant 'cut any collection': same-named components of two collections merge")
+        ctx.tlc("Internalize", "MC_C16_deep_base.cfg", expect_violation=True, workers=2, label="D naming variant 'last token of a back reference': same-named leaves merge")
         cases = gen_universes(ctx, ctx.tier)
         ctx.exhaustive = True
     ctx.build_driver()
     logp = os.path.join(ctx.scratch, "log.ndjson")
-    ctx.drive(cases, logp)
+    ctx.drive(cases, logp, shards=(8 if ctx.tier == "thorough" else 4))
     rng = random.Random(ctx.seed)
     notloaded = 0
     for l in open(logp):
